@@ -3,7 +3,7 @@
 //!               {"r":"ok","cpu_us":n,"nodes":k} | {"r":"err","e":"<Display of usvg::Error>","cpu_us":n}
 //!               (a panic is reported by run_batch, an abort / hang by the driver)
 //!   c01-ctor    payload `<ctor>\t<hex f32 bits>[,<hex>..]` -> "some" | "none" for the validated constructors
-//!               positive | nonzero_positive | normalized | size (2 args) | nz_rect / nz_ltrb / rect (4 args)
+//!               positive | nonzero_positive | normalized | nonzero (usvg's own NonZeroF32) | size (2 args) | nz_rect / nz_ltrb / rect (4 args)
 use crate::dump::esc;
 use crate::util::*;
 
@@ -64,6 +64,7 @@ fn ctor(payload: &str) -> String {
         "positive" => usvg::PositiveF32::new(g(0)).is_some(),
         "nonzero_positive" => usvg::NonZeroPositiveF32::new(g(0)).is_some(),
         "normalized" => usvg::NormalizedF32::new(g(0)).is_some(),
+        "nonzero" => usvg::NonZeroF32::new(g(0)).is_some(),
         "size" => usvg::Size::from_wh(g(0), g(1)).is_some(),
         "nz_rect" => usvg::NonZeroRect::from_xywh(g(0), g(1), g(2), g(3)).is_some(),
         "rect" => usvg::Rect::from_xywh(g(0), g(1), g(2), g(3)).is_some(),
